@@ -255,8 +255,13 @@ impl Accept for UnixListener {
     type Error = io::Error;
 
     fn poll_accept(self: Pin<&mut Self>, cx: &mut Context<'_>) -> Poll<io::Result<Self::Conn>> {
+        // A peer may be bound to a path which is not UTF-8. That is a property of this one
+        // connection, not an error of the listener: report such a peer as unnamed instead of
+        // failing the accept (which would end the server).
         UnixListener::poll_accept(self.get_mut(), cx).map(|res| {
-            res.and_then(|(stream, remote)| Ok(UnixStream::new(stream, Some(remote.try_into()?))))
+            res.map(|(stream, remote)| {
+                UnixStream::new(stream, Some(remote.try_into().unwrap_or_default()))
+            })
         })
     }
 }
